@@ -74,7 +74,9 @@ func NewConstInt[T constraints.Signed](val T, w Width) Const {
 		val >>= 8
 	}
 
-	if val != 0 && (val != -1 || bs[len(bs)-1] < 128) {
+	// The remaining bits must be a pure sign extension of the encoded bytes.
+	negative := bs[len(bs)-1] >= 128
+	if (val != 0 || negative) && (val != -1 || !negative) {
 		panic(fmt.Sprintf("value of type %T doesn't fit to value of width %d: %d",
 			val, w, valCopy))
 	}
